@@ -6,6 +6,7 @@ import (
 	"go/constant"
 	"go/token"
 	"go/types"
+	"sort"
 	"strings"
 
 	"golang.org/x/tools/go/ssa"
@@ -675,4 +676,117 @@ func AccessPath(v ssa.Value) (string, bool) {
 		return strings.TrimPrefix(p, "&") + "[]", ok
 	}
 	return "", false
+}
+
+// Forwarders returns the functions of target's package that do nothing but pass arguments on to target (or to another forwarder):
+// one basic block, whose only call is that one, and whose results are the call's results in order. The map gives, per parameter
+// index of target, where the forwarder takes the argument from: a parameter index of its own (≥ 0), or -1 for anything else (a field
+// of its receiver, a constant). `m.writeTSPacket(p)` = `writePacket(m.bitsWriter, p, m.packetSize)` is the instance this is for.
+// Forwarder: Map[i] is the forwarder's own parameter index that supplies target parameter i (-1: something else); Inner is the one
+// call in its body.
+type Forwarder struct {
+	Map   []int
+	Inner *ssa.Call
+}
+
+func Forwarders(target *ssa.Function) map[*ssa.Function]Forwarder {
+	known := map[*ssa.Function]Forwarder{}
+	if target == nil || target.Pkg == nil {
+		return known
+	}
+	for round := 0; round < 2; round++ {
+		for _, mem := range allPkgFuncs(target.Pkg) {
+			f := mem
+			if _, done := known[f]; f == target || len(f.Blocks) != 1 || done {
+				continue
+			}
+			var call *ssa.Call
+			ncalls := 0
+			clean := true
+			for _, in := range f.Blocks[0].Instrs {
+				switch x := in.(type) {
+				case *ssa.Call:
+					ncalls++
+					call = x
+				case *ssa.Store, *ssa.MapUpdate, *ssa.Send, *ssa.Go, *ssa.Defer:
+					clean = false
+				}
+			}
+			if ncalls != 1 || !clean {
+				continue
+			}
+			cal := call.Call.StaticCallee()
+			var inner []int // per target parameter: index into call.Call.Args
+			switch {
+			case cal == target:
+				for i := range target.Params {
+					inner = append(inner, i)
+				}
+			case cal != nil && known[cal].Map != nil:
+				inner = known[cal].Map
+			default:
+				continue
+			}
+			ret, ok := f.Blocks[0].Instrs[len(f.Blocks[0].Instrs)-1].(*ssa.Return)
+			if !ok {
+				continue
+			}
+			good := true
+			for i, rv := range ret.Results {
+				if len(ret.Results) == 1 {
+					if rv != ssa.Value(call) {
+						good = false
+					}
+				} else if ex, isEx := rv.(*ssa.Extract); !isEx || ex.Tuple != ssa.Value(call) || ex.Index != i {
+					good = false
+				}
+			}
+			if !good {
+				continue
+			}
+			m := make([]int, len(target.Params))
+			for i := range m {
+				m[i] = -1
+				ai := inner[i]
+				if ai < 0 || ai >= len(call.Call.Args) {
+					continue
+				}
+				for j, p := range f.Params {
+					if call.Call.Args[ai] == ssa.Value(p) {
+						m[i] = j
+					}
+				}
+			}
+			known[f] = Forwarder{Map: m, Inner: call}
+		}
+	}
+	return known
+}
+
+func allPkgFuncs(pkg *ssa.Package) []*ssa.Function {
+	var out []*ssa.Function
+	for _, mem := range pkg.Members {
+		switch x := mem.(type) {
+		case *ssa.Function:
+			out = append(out, x)
+		case *ssa.Type:
+			for _, t := range []types.Type{x.Type(), types.NewPointer(x.Type())} {
+				ms := pkg.Prog.MethodSets.MethodSet(t)
+				for i := 0; i < ms.Len(); i++ {
+					if fn := pkg.Prog.MethodValue(ms.At(i)); fn != nil && fn.Pkg == pkg && fn.Synthetic == "" {
+						out = append(out, fn)
+					}
+				}
+			}
+		}
+	}
+	sort.Slice(out, func(i, j int) bool { return out[i].String() < out[j].String() })
+	// methods appear for T and *T
+	var uniq []*ssa.Function
+	for i, f := range out {
+		if i == 0 || out[i-1] != f {
+			uniq = append(uniq, f)
+		}
+	}
+	return uniq
 }
